@@ -140,4 +140,50 @@ theorem so3Interp_inB {x1 y1 z1 w1 x2 y2 z2 w2 : ℝ} (t : ℝ)
   obtain ⟨x, y, z, w, e, hn⟩ := so3Interp_unit t h1 h2
   rw [e]; exact so3InB_of_unit hn
 
+/-! ### t = 1: `±to`, equal states as coded -/
+
+/-- below the clamp the arc length is far above `eps`: `cos eps ≥ 1 - eps²/2 > 1 - 1e-9` -/
+theorem arcLength_small {x1 y1 z1 w1 x2 y2 z2 w2 : ℝ}
+    (h : ¬ dblEps < arcLength x1 y1 z1 w1 x2 y2 z2 w2) :
+    arcLength x1 y1 z1 w1 x2 y2 z2 w2 = 0 := by
+  rw [arcLength_eq] at h ⊢
+  split_ifs at h ⊢ with hc
+  · rfl
+  · exfalso
+    have hc' := not_lt.mp hc
+    have h0 := abs_nonneg (quatDot x1 y1 z1 w1 x2 y2 z2 w2)
+    have hle := not_lt.mp h
+    have hcos : Real.cos dblEps ≤ |quatDot x1 y1 z1 w1 x2 y2 z2 w2| := by
+      have := Real.cos_le_cos_of_nonneg_of_le_pi (Real.arccos_nonneg _)
+        (by rw [dblEps_eq]; linarith [pi_gt_three]) hle
+      rwa [Real.cos_arccos (by linarith) (by norm_num at hc' ⊢; linarith)] at this
+    have hb := Real.one_sub_sq_div_two_le_cos (x := dblEps)
+    rw [dblEps_eq] at hb hcos
+    norm_num at hb hcos hc'
+    linarith
+
+theorem arcLength_self_unit {x y z w : ℝ} (h : x * x + y * y + z * z + w * w = 1) :
+    arcLength x y z w x y z w = 0 ∧ arcLength (-x) (-y) (-z) (-w) x y z w = 0 := by
+  constructor
+  · rw [arcLength_eq, quatDot_eq, h, if_pos (by norm_num)]
+  · have e : -x * x + -y * y + -z * z + -w * w = -1 := by linarith
+    rw [arcLength_eq, quatDot_eq, e, if_pos (by norm_num)]
+
+theorem so3Interp_one {x1 y1 z1 w1 x2 y2 z2 w2 : ℝ}
+    (h2 : x2 * x2 + y2 * y2 + z2 * z2 + w2 * w2 = 1) :
+    eqStates .so3 (so3Interp x1 y1 z1 w1 x2 y2 z2 w2 1) (.so3 x2 y2 z2 w2) = true := by
+  by_cases h : dblEps < arcLength x1 y1 z1 w1 x2 y2 z2 w2
+  · rw [so3Interp_big 1 h]
+    have hs := (sin_arcLength_pos h).ne'
+    simp only [sub_self, zero_mul, Real.sin_zero, mul_zero, zero_add, one_mul, eqStates,
+      decide_eq_true_eq]
+    generalize Real.sin (arcLength x1 y1 z1 w1 x2 y2 z2 w2) = S at hs ⊢
+    have e1 : ∀ q : ℝ, q * -S * (1 / S) = -q := fun q => by field_simp
+    have e2 : ∀ q : ℝ, q * S * (1 / S) = q := fun q => by field_simp
+    split_ifs
+    · simp only [e1, (arcLength_self_unit h2).2, dblEps_pos]
+    · simp only [e2, (arcLength_self_unit h2).1, dblEps_pos]
+  · rw [so3Interp_small 1 h]
+    simp only [eqStates, decide_eq_true_eq, arcLength_small h, dblEps_pos]
+
 end OmplModel.SpaceInterp
